@@ -76,6 +76,7 @@ fn cmd_run(prop: &str, tier: Tier) -> i32 {
     let scratch = root.join("sim").join("target").join("parts");
     std::fs::create_dir_all(&scratch).ok();
     let mut parts: Vec<PartResult> = vec![];
+    let mut panic_only: Vec<bool> = vec![];
     for part in &spec.parts {
         for profile in registry::profiles(part, tier) {
             let bin = binary_for(profile);
@@ -98,6 +99,7 @@ fn cmd_run(prop: &str, tier: Tier) -> i32 {
             let pr: PartResult = serde_json::from_slice(&body).unwrap_or_else(|e| harness_fail(&format!("parse part result: {e}")));
             let _ = std::fs::remove_file(&out);
             parts.push(pr);
+            panic_only.push(part.panic_only);
         }
     }
 
@@ -108,11 +110,14 @@ fn cmd_run(prop: &str, tier: Tier) -> i32 {
     let mut harness_errors: Vec<String> = vec![];
     let mut printed_known = std::collections::BTreeSet::new();
     let mut viol_lines = vec![];
-    for pr in &parts {
+    for (pi, pr) in parts.iter().enumerate() {
         for e in &pr.harness_errors {
             harness_errors.push(format!("[{} {}] {}", pr.scenario, pr.profile, e));
         }
         for f in &pr.found {
+            if panic_only[pi] && !(f.class.starts_with("panic@") || f.class.starts_with("abort:")) {
+                continue;
+            }
             let replay = f.replay.clone().unwrap_or_default();
             // every reported violation must replay in a fresh process
             let bin = binary_for(&pr.profile);
@@ -122,7 +127,9 @@ fn cmd_run(prop: &str, tier: Tier) -> i32 {
                 harness_errors.push(format!("replay {} did not reproduce class {}", replay, f.class));
                 continue;
             }
-            if let Some(k) = known.iter().find(|k| k.property == prop && k.class == f.class) {
+            // C17 re-runs other properties' scenarios: a class that is another property's recorded
+            // finding (class prefix = that property's id) is recognised as such
+            if let Some(k) = known.iter().find(|k| (k.property == prop || (prop == "C17" && f.class.starts_with(&format!("{}.", k.property)))) && k.class == f.class) {
                 if printed_known.insert(f.class.clone()) {
                     println!("KNOWN-FINDING: property={} {} :: {} (replay={})", prop, f.class, k.desc, replay);
                 }
